@@ -301,7 +301,9 @@ namespace link_layer {
     template < class BufferedRadio, class ReceiveCallbacks, std::size_t MTUSize >
     void ll_l2cap_sdu_buffer< BufferedRadio, ReceiveCallbacks, MTUSize >::free_ll_l2cap_received()
     {
-        if (receive_buffer_used_)
+        // only a completely reassembled SDU was handed out from the receive buffer; LL control PDUs that
+        // are handed out while a SDU is beeing reassembled, are still owned by the radio
+        if ( receive_buffer_used_ != 0 && receive_size_ == 0 )
         {
             receive_buffer_used_ = 0;
             receive_size_ = 0;
